@@ -148,6 +148,10 @@ def run(ctx):
     ctx.sample(lines[len(lines) // 3])
     # (ii) real graphs: closures / counted once  (iii) provenance
     from .. import schedcase
+    from . import c08
+
+    # cohorts over N-D labels on an N-D chunk grid: every member counted for its own label (each result slice against the reference)
+    c08.validate_axis_cases(ctx, c08.nd_cohort_cases(ctx.rng, 500 if q else 10000), "c09-nd")
 
     gcases, pcases = [], []
     layouts = [([0, 1, 0, 1, 2, 2, 0, 1], [2, 2, 2, 2]), ([0, 0, 1, 1, 2, 2, 3, 3], [2, 2, 2, 2]), ([0, 1, 2, 0, 1, 2, 0, 1], [3, 3, 2]),
